@@ -8,5 +8,13 @@ META = dict(
     not_covered=['compile-time constant / clipped shapes (type level)', 'broadcast_arrays view glue'],
 )
 UNITS = [
+    Unit('shape_broadcast_to.bp', 'c06', 'verif_shape_broadcast_to', mode='bp', unwind=10, clause='broadcast_to succeeds iff each source extent equals the target extent or is 1; stretched/prepended axes are flagged free'),
+    Unit('lemma.commutative', 'c06', None, lemma='lemma_bcast_commutative', unwind=10, clause='result does not depend on operand order'),
+    Unit('lemma.idempotent', 'c06', None, lemma='lemma_bcast_idempotent', unwind=10, clause='broadcasting a shape with itself changes nothing'),
+    Unit('lemma.absorb', 'c06', None, lemma='lemma_bcast_absorb', unwind=10, clause='broadcasting with the result changes nothing'),
+    Unit('lemma.scalar', 'c06', None, lemma='lemma_bcast_scalar', unwind=10, clause='scalars broadcast with everything'),
+    Unit('lemma.axiswise', 'c06', None, lemma='lemma_bcast_axiswise', unwind=10, clause='result does not depend on grouping (axis-wise form of the rule)'),
+    Unit('lemma.comb_associative', 'c06', None, lemma='lemma_comb_associative', unwind=10, clause='result does not depend on grouping (scalar combine associative on positive extents)'),
+    Unit('lemma.associative', 'c06', None, lemma='lemma_bcast_associative', unwind=10, tier='thorough', timeout=1800, clause='result does not depend on grouping (monolithic, ranks 0..8)'),
     Unit('broadcast_shape.bp', 'c06', 'verif_broadcast_shape', mode='bp', unwind=10, unwind_loops={'hybrid_ndarray.*resize': 3, 'detail_init_': 3}, clause='succeeds exactly when aligned extents are equal or 1; yields the per-axis maximum'),
 ]
